@@ -40,8 +40,9 @@ META["C01"] = dict(
     technique="Lean 4 proof (refinement of the physical store model to a finite map; record-list invariant) + byte-exact correspondence with store.Store",
     text="The model is the store's Put/Get/Has/GetSize/Remove/Flush/iteration over pools, bucket table and byte-exact index/primary/freelist "
          "files; the theorem states that every output equals the output of a finite map for all configurations, key sets and histories "
-         "(C01_store_refines_map, Sth/Props/C01.lean, in progress: the proved core today is the record-list invariant/lookup/codec of "
-         "Sth/Props/C08.lean on which it rests). The model is tied to the code by comparing every output, the decoded in-memory state and "
+         "(C01_store_refines_map, Sth/Props/C01.lean: PROVED for both primaries, both immutability modes, bits 8..31, file limits 1 B..1 GiB, "
+         "flushes at arbitrary positions with arbitrary flush orders, malformed keys included; ~4500 lines of lemmas, no extra hypothesis; "
+         "the first proof attempt found defect D30, since repaired). The model is tied to the code by comparing every output, the decoded in-memory state and "
          "the bytes of every file with the real store on generated traces, and every real output is checked against the map specification.",
     note=SEQ_NOTE,
 )
@@ -145,4 +146,26 @@ META["C13"] = dict(
          "complete cycle consumes everything recorded before it. The accounting theorem (C13_accounting) is stated in DESIGN.md and not "
          "yet proved; proved core = record-list theorems (frame: update/remove touch exactly one entry).",
     note=SEQ_NOTE,
+)
+
+META["C07"] = dict(
+    engine="lean+harness(seq)",
+    design_ref="DESIGN.md section 5, C07",
+    technique="Lean fsck (independent reader of all on-disk formats) evaluated on the real directory bytes after every flush/GC/reopen; model files checked too",
+    text="Sth/Model/Fsck.lean parses headers, snapshot, every index and primary file, freelist and .gc and checks every clause of the "
+         "statement; the driver evaluates it on the real bytes (not on the model's) after every quiescent point of generated histories, "
+         "and C03's engine recovers crash images whose follow-up behaviour depends on the same invariant. The theorem C07_fsck (Inv read "
+         "off the disk for every reachable quiescent state) is not yet proved; it rests on the proved C01 invariant for histories "
+         "without GC/reopen.",
+    note=SEQ_NOTE,
+)
+META["C17"] = dict(
+    engine="lean+harness(res)",
+    design_ref="DESIGN.md section 5, C17",
+    technique="shutdown specification evaluated on real processes (goroutine dump, /proc/self/fd, directory stamps) with collector cycles parked at hook points; Lean small-step lifecycle model (in progress)",
+    text="Close is issued on stores with real background flusher and collectors while a cycle is parked at each of 31 named points; the "
+         "harness observes that Close blocks until the cycle is released, and that afterwards no store goroutine, no descriptor and no "
+         "directory change remains; failing opens and repetition runs likewise. The small-step model of the stop/done handshakes and its "
+         "theorems (C17_close_quiescent, C17_no_fs_after_close) are being proved.",
+    note="Trusts: Lean kernel; the goroutine dump / procfs / stat observations of the harness; 70 ms observation window after Close.",
 )
